@@ -202,9 +202,46 @@ class Plain:
     label: str
     def __init__(self, _n: int = 0, label: str = ''):
         self._n, self.label = _n, label
+# structured classes with extra protocol methods: still structured (record-like ** unpacking, by-name subscription, callable, sized)
+@dataclasses.dataclass
+class Options:
+    retries: int = 0
+    verbose: bool = False
+    def keys(self):
+        return ["retries", "verbose"]
+    def __getitem__(self, k):
+        return getattr(self, k)
+@dataclasses.dataclass
+class Sized:
+    n: int = 0
+    when: datetime.date = datetime.date(2020, 1, 1)
+    def __len__(self):
+        return self.n
+    def __contains__(self, x):
+        return False
+    def __call__(self):
+        return self.n
+class Scale:
+    # typed through its constructor only, and callable
+    def __init__(self, factor: decimal.Decimal, offset: int = 0, since: datetime.date = datetime.date(2020, 1, 1)):
+        self.factor, self.offset, self.since = factor, offset, since
+    def __call__(self, x):
+        return x * self.factor + self.offset
+    def __repr__(self):
+        return f"Scale({self.factor!r}, {self.offset!r}, {self.since!r})"
+@dataclasses.dataclass
+class ScaleHolder:
+    label: str
+    items: typing.Dict[str, Scale] = dataclasses.field(default_factory=dict)
+@dataclasses.dataclass
+class Job:
+    name: str
+    options: Options = dataclasses.field(default_factory=Options)
+    sized: typing.Optional[Sized] = None
 """
 PRIV_TARGETS = ["Doc", "DocPart", "Account", "Ledger", "Wrapped", "Plain", "typing.List[Doc]", "typing.Dict[str, Account]",
-                "typing.Optional[Wrapped]", "typing.Tuple[Account, Doc]"]
+                "typing.Optional[Wrapped]", "typing.Tuple[Account, Doc]", "Options", "Sized", "Job", "typing.List[Options]", "typing.Dict[str, Sized]",
+                "Scale", "ScaleHolder", "typing.List[Scale]"]
 PRIV_INPUTS = ["{'_id': '7c5b9e1e-3f65-4b0a-9a57-0f6c0b1d2a11', 'title': 'a'}", "{'_id': ['not', 'a'], 'title': 'a'}",
                "'{\"_id\": \"7c5b9e1e-3f65-4b0a-9a57-0f6c0b1d2a11\", \"title\": \"a\"}'", "{'_rev': '3', '_tags': ['1', '2']}", "{'_rev': None}",
                "{'owner': 'ann', '_balance': '12.50'}", "{'owner': 'ann', '_balance': {'oops': None}}", "{'owner': 'ann'}",
@@ -213,7 +250,11 @@ PRIV_INPUTS = ["{'_id': '7c5b9e1e-3f65-4b0a-9a57-0f6c0b1d2a11', 'title': 'a'}", 
                "{'accounts': [], '_opened': 'junk'}", "{'_inner': {'owner': 'x', '_balance': '2'}, '_pairs': {'a': '1'}, '_pt': ['1', 2]}",
                "{'_pt': ['1', 2, 3]}", "{'_pairs': [1, 2]}", "{'_n': '5', 'label': 7}", "{'_n': 'x'}",
                "[{'_id': '7c5b9e1e-3f65-4b0a-9a57-0f6c0b1d2a11', 'title': 't'}]", "{'k': {'owner': 'o', '_balance': '0.1'}}", "None",
-               "[{'owner': 'o', '_balance': '3'}, {'_id': '7c5b9e1e-3f65-4b0a-9a57-0f6c0b1d2a11', 'title': 1}]"]
+               "[{'owner': 'o', '_balance': '3'}, {'_id': '7c5b9e1e-3f65-4b0a-9a57-0f6c0b1d2a11', 'title': 1}]",
+               "{'retries': '3', 'verbose': 1}", "'{\"retries\": \"3\", \"verbose\": 0}'", "[('retries', '4')]", "{'retries': [1, 2, 3]}", "{'n': '2', 'when': '2021-02-03'}",
+               "{'name': 'nightly', 'options': {'retries': '9'}, 'sized': {'n': '1'}}", "[{'retries': '1'}, {'verbose': 'x'}]", "{'a': {'n': '5', 'when': 'junk'}}",
+               "{'k': {'n': '5'}}", "{'factor': '2.50', 'offset': '3', 'since': '2024-02-29'}", "[{'factor': '1', 'offset': 'x'}]",
+               "{'label': 7, 'items': {'k': {'factor': '2.50', 'offset': '3', 'since': '2024-02-29'}}}", "[{'factor': '1.5'}]"]
 
 
 def _priv_child(ann):
@@ -251,6 +292,8 @@ def _priv_child(ann):
             return type(x) is a and all(conf(h, getattr(x, n)) for n, h in hints.items())
         if a is mod.Plain:
             return type(x) is a and type(x._n) is int and type(x.label) is str
+        if a is mod.Scale:
+            return type(x) is a and all(conf(h, getattr(x, n)) for n, h in typing.get_type_hints(a.__init__).items() if n != "return")
         return type(x) is a
     out = []
     for src in PRIV_INPUTS:
@@ -275,7 +318,7 @@ def private_member_probe(res):
             if ok:
                 res.count("oracle:private-member:" + ("rejected" if got == "raised" else "conforms"))
             else:
-                res.failures.append({"what": f"unmarshal({ann}, {src}) returned {got}: a private member is not a value of its annotated type",
+                res.failures.append({"what": f"unmarshal({ann}, {src}) returned {got}: a member is not a value of its annotated type",
                                      "input": {"private_member": [ann, src]}})
 
 
@@ -372,6 +415,48 @@ def recursive_alias_probe(res):
                                      "input": {"recursive_alias": [ann, src]}})
 
 
+# ---- known finding iterableDataclass: a dataclass that also defines __iter__ is dispatched as a generic iterable (cast), its fields
+# are not converted.  Kept as a finding (see known_findings.json); a DIFFERENT non-conforming result of these calls is still reported.
+def _iterdc_child(_job):
+    import warnings
+    warnings.simplefilter("ignore")
+    import dataclasses
+    import typing
+    import typelib
+
+    @dataclasses.dataclass
+    class Bag:
+        count: int = 0
+        tags: typing.List[int] = dataclasses.field(default_factory=list)
+
+        def __iter__(self):
+            return iter(self.tags)
+    out = []
+    for x in ({"count": "3"}, {"count": "3", "tags": ["1"]}, Bag("5", ["2"])):
+        try:
+            r = typelib.unmarshal(Bag, x)
+        except Exception:  # noqa: BLE001
+            out.append([repr(x), "raised", True])
+            continue
+        ok = type(r) is Bag and type(r.count) is int and type(r.tags) is list and all(type(e) is int for e in r.tags)
+        out.append([repr(x), repr(r), ok])
+    return out
+
+
+def iterable_dataclass_probe(res):
+    from .. import iso
+    o = iso.map_isolated(_iterdc_child, [None], timeout=60.0)[0]
+    if not isinstance(o, list):
+        raise RuntimeError(f"harness: iterable-dataclass probe failed: {o}")
+    for src, got, ok in o:
+        res.case({"ann": "Bag (a dataclass defining __iter__)", "val": src, "family": "iterable-dataclass"}, True)
+        if ok:
+            res.count("oracle:iterable-dataclass:" + ("rejected" if got == "raised" else "conforms"))
+        else:
+            res.failures.append({"what": f"unmarshal(Bag, {src}) returned {got}: the fields of a dataclass that defines __iter__ are not converted",
+                                 "input": {"iterable_dataclass": src}, "finding": "iterableDataclass"})
+
+
 def explore(ctx):
     res = Result()
     res.rule = RULE
@@ -433,6 +518,7 @@ def explore(ctx):
     open_tuple_probe(res)
     private_member_probe(res)
     recursive_alias_probe(res)
+    iterable_dataclass_probe(res)
     return res
 
 
@@ -442,6 +528,11 @@ def witness(fid):
         core.import_typelib()
         o = iso.map_isolated(_descent_child, [("SA", "-")], timeout=8.0)[0]
         return isinstance(o, dict) and "crash" in o
+    if fid == "iterableDataclass":
+        from .. import iso
+        core.import_typelib()
+        o = iso.map_isolated(_iterdc_child, [None], timeout=60.0)[0]
+        return isinstance(o, list) and any(not ok for _, _, ok in o)
     return _witness_rest(fid)
 
 
